@@ -42,6 +42,8 @@ RICH_SURFACE = ['[{M}]C([{M}])C', 'C[{M}]', '[{M}]CC[{M}]', 'OC[{M}]', 'C(=O)([{
 def mix_case(draw):
     L = draw(st.sampled_from(shipped.LIBS))
     w = dict(WEIGHTS[L], polycyclic=1)
+    # molecules built from the scheme's own patterns: every correction descriptor gets to sit next to other components
+    w['witness' if L not in ('BensonGA', 'PPY') else 'witness-gas'] = 4
     metal = 'Ru' if L == 'XieGA2022' else 'Pt'
     n = draw(st.sampled_from([2, 2, 2, 3]))
     comps = []
